@@ -307,6 +307,33 @@ func typeChurn(r *hk.Run) {
 	}
 }
 
+// edgeHistory: a fixed world in which a relation edge was made, removed and made again through
+// another edge attribute: the related node must be looked at although the first claim that names it
+// is no longer in effect.
+func edgeHistory(r *hk.Run) {
+	c := newCase(r, "fixed edge history")
+	b := c.b
+	p, ch, q := b.PN("edge1"), b.PN("edge2"), b.PN("edge3")
+	b.Claim(ch, "add", "tag", "x", 1400000001)
+	b.Claim(p, "add", "camliMember", ch, 1400000002)
+	b.Claim(p, "del", "camliMember", ch, 1400000003)
+	b.Claim(p, "set", "camliPath:pic", ch, 1400000004)
+	b.Claim(q, "add", "camliMember", ch, 1400000005)
+	b.Claim(q, "del", "camliMember", "", 1400000006)
+	b.SyncCTimes()
+	tagged := &Cons{Pn: &PermC{Attr: "tag", Value: "x"}}
+	for _, rel := range []*RelC{{Relation: "child", Any: tagged}, {Relation: "child", All: tagged}, {Relation: "parent", Any: &Cons{Camli: "permanode"}},
+		{Relation: "child", EdgeType: "camliMember", Any: tagged}} {
+		for _, s := range []string{"unsorted", "-created", "blobref"} {
+			r.Hit("fixed-edge-history")
+			c.query(s, -1, &Cons{Pn: &PermC{Rel: rel}}, "nonconstant")
+		}
+	}
+	if len(b.Bad) > 0 {
+		r.Fail("world-build", strings.Join(b.Bad, "; "), "ok", "", r.CaseOps())
+	}
+}
+
 func malformed(r *hk.Run) {
 	c := newCase(r, "malformed ops")
 	b := c.b
@@ -341,6 +368,7 @@ func Run(r *hk.Run) {
 	probes(r)
 	lateContent(r)
 	typeChurn(r)
+	edgeHistory(r)
 	malformed(r)
 	worlds, consPer, maxDepth := 500, 6, 3
 	if r.Thorough() {
